@@ -15,6 +15,18 @@ use serde_json::{json, Value};
 use std::collections::{BTreeMap, BTreeSet};
 use std::path::{Component, Path, PathBuf};
 
+/// `Model::spawn` with a few retries: under heavy machine load starting the driver process
+/// can fail transiently
+fn spawn_model() -> Model {
+    for attempt in 0..6 {
+        if let Ok(m) = std::panic::catch_unwind(Model::spawn) {
+            return m;
+        }
+        std::thread::sleep(std::time::Duration::from_millis(200 * (attempt + 1)));
+    }
+    Model::spawn()
+}
+
 // ------------------------------------------------------------------------------------------
 // wire helpers
 
@@ -445,8 +457,11 @@ fn push_cases(
             let full_ext = format!("{}{}", stem_ext, ext);
             // location of the given path without any extension suffix
             let mut target = base.clone();
+            let mut above_root = false;
             for t in tail {
                 if *t == ".." {
+                    // `..` at the root: POSIX stays at the root, darklua's normalize pops it (F16)
+                    above_root |= target.is_empty();
                     target.pop();
                 } else {
                     target.push((*t).to_owned());
@@ -493,7 +508,7 @@ fn push_cases(
                         ext,
                         deco,
                         mask,
-                        region: u.region,
+                        region: if above_root { "F16" } else { u.region },
                     });
                 }
             }
@@ -522,7 +537,7 @@ fn labelled_cases(thorough: bool, rng: &mut Rng) -> Vec<Case> {
     let plain = Universe { masks: all_masks.clone(), decos: vec![0], region: "" };
     let decorated = Universe { masks: some_masks, decos: vec![1, 2, 3, 4, 5], region: "" };
     let mut out = Vec::new();
-    let tails: [&[&str]; 4] = [&["m"], &["sub", "m"], &["..", "m"], &["..", "lib", "m"]];
+    let tails: [&[&str]; 5] = [&["m"], &["sub", "m"], &["..", "m"], &["..", "lib", "m"], &["..", "..", "lib", "m"]];
 
     // ---- path mode, relative requires
     for folder in ["init", "init.luau", "index"] {
@@ -741,7 +756,7 @@ fn run_find_cases(cases: &[Case], threads: usize) -> Vec<FindOutcome> {
         let mut handles = Vec::new();
         for (t, part) in cases.chunks(chunk.max(1)).enumerate() {
             handles.push(scope.spawn(move || {
-                let mut model = Model::spawn();
+                let mut model = spawn_model();
                 let mut local = Vec::with_capacity(part.len());
                 for (b, batch) in part.chunks(4000).enumerate() {
                     let requests: Vec<String> = batch.iter().map(|c| c.model_request()).collect();
@@ -959,7 +974,7 @@ fn run_convert_cases(cases: &[ConvCase], threads: usize) -> Vec<ConvOutcome> {
         let mut handles = Vec::new();
         for (t, part) in cases.chunks(chunk).enumerate() {
             handles.push(scope.spawn(move || {
-                let mut model = Model::spawn();
+                let mut model = spawn_model();
                 let mut local = Vec::with_capacity(part.len());
                 for (b, batch) in part.chunks(2000).enumerate() {
                     let requests: Vec<String> = batch
@@ -1185,7 +1200,7 @@ A locator case is non-trivial when at least one candidate file exists (the loop 
         return;
     }
 
-    let mut model = Model::spawn();
+    let mut model = spawn_model();
 
     // ---- corpus: stored inputs are re-run first (find cases and normalize inputs)
     let corpus_dir = concat!(env!("CARGO_MANIFEST_DIR"), "/../corpus/C15");
@@ -1598,7 +1613,7 @@ fn run_replay(report: &mut Report, file: &str) {
             return;
         }
     };
-    let mut model = Model::spawn();
+    let mut model = spawn_model();
     check_corpus_entry(report, &mut model, &v, &known_findings("C15"));
     let input = if v["input"].is_object() { &v["input"] } else { &v };
     if input["op"] == "find" {
